@@ -265,6 +265,7 @@ static void mode_extract(Ctx &c, int step, bool fft, bool nofft) {
     delete_TorusPolynomial(v);
 }
 
+static bool in_prelude = false;
 static void run_config(Args &args, uint64_t seed, int n, int k, int l, int Bgbit, int t, int bb, const std::string &modes, int entry_mask, int count, int pstep, int coefdomain) {
     Ctx c;
     c.n = n; c.N = 1024; c.k = k; c.l = l; c.Bgbit = Bgbit;
@@ -273,7 +274,10 @@ static void run_config(Args &args, uint64_t seed, int n, int k, int l, int Bgbit
     double a_bk = args.d("bk_stdev", ldexp(1.0, -31)), a_ks = args.d("ks_stdev", ldexp(1.0, -31));
     rng.reseed(seed * 1000003ull + c.n * 7 + c.k * 3 + c.l * 11 + c.Bgbit);
     seed_library(seed * 31 + c.n);
-    c.ps = new PSet(c.n, c.N, c.k, c.l, c.Bgbit, c.t, c.bb, a_ks, a_bk);
+    const bool share = args.i("shareparams", 0) && !in_prelude;
+    c.ps = new PSet(c.n, c.N, c.k, c.l, c.Bgbit, c.t, c.bb, share ? a_bk : a_ks, a_bk, 0.012467, share);
+    c.n = c.ps->n;
+    if (share) out.cell("parameters:in/out LWE parameters are the accumulator's extracted parameter object (n = k*N)");
     c.cfg = c.ps->name();
     VH_OP("keygen:%s", c.cfg.c_str());
     c.sk = new_random_gate_bootstrapping_secret_keyset(c.ps->gb);
@@ -302,7 +306,7 @@ int main(int argc, char **argv) {
     if (args.i("prelude", 0)) {
         int k0 = args.i("k", 1) == 1 ? 2 : 1, t0 = args.i("t", 10) == 3 ? 4 : 3, bb0 = args.i("basebit", 2) == 3 ? 2 : 3;
         int l0 = args.i("l", 3) == 2 ? 3 : 2, bg0 = args.i("Bgbit", 7) == 8 ? 9 : 8;
-        run_config(args, seed + 1000, 3 + (int) (seed % 3), k0, l0, bg0, t0, bb0, "b", 3, 6, 64, 0);
+        in_prelude = true; run_config(args, seed + 1000, 3 + (int) (seed % 3), k0, l0, bg0, t0, bb0, "b", 3, 6, 64, 0); in_prelude = false;
         out.cell("history:other-parameter-layout-used-first-in-this-process");
     }
     run_config(args, seed, args.i("n", 8), args.i("k", 1), args.i("l", 3), args.i("Bgbit", 7), args.i("t", 10), args.i("basebit", 2),
